@@ -48,8 +48,9 @@ func Expect(cfg Cfg, t *T, opt string, v V, forced bool) V {
 			return V{Nil: true}
 		}
 		e := Expect(cfg, t.Elem, opt, v.E[0], true)
-		if ClassOf(cfg, t.Elem, opt) == CR && t.Elem.K != KPtr && e.Nil {
-			// pointer to an empty protobuf repeated field: nothing is written at all
+		if ClassOf(cfg, t.Elem, opt) == CR && e.Nil && !(t.Elem.K == KPtr && v.E[0].Nil) {
+			// pointer (chain) to an empty protobuf repeated field: nothing is written at all.
+			// (A pointer to a NIL pointer is a different matter: C01's nested-presence finding.)
 			return V{Nil: true}
 		}
 		return V{E: []V{e}}
